@@ -145,10 +145,12 @@ def check(case):
     cat_cols = case["cat_cols"]
     if o["columns"] == "auto":
         columns, fit_cols = None, list(cat_cols)
+    elif isinstance(o["columns"], str):
+        columns, fit_cols = o["columns"], [o["columns"]]      # a single column name (documented: wrapped into a list)
     else:
         fit_cols = [c for c in cat_cols if c in o["columns"]]
         columns = list(fit_cols)
-    facts = dict(single=o["single"], skip_errors=o["skip_errors"], columns=o["columns"] == "auto" and "auto" or "explicit",
+    facts = dict(single=o["single"], skip_errors=o["skip_errors"], columns=o["columns"] == "auto" and "auto" or ("string" if isinstance(o["columns"], str) else "explicit"),
                  remove=bool(o["remove"]), dtype=case["dtype"])
     tr = _mod.CategoriesToIntegers(columns=columns, remove=o["remove"], skip_errors=o["skip_errors"], single=o["single"])
     train = _frame(case["train"], cols, case["train_index"], cat_cols, case["dtype"])
@@ -161,7 +163,7 @@ def check(case):
     has_missing = any(_is_missing(v) for c in fit_cols for v in case["test"][c])
     has_unseen = any((not _is_missing(v)) and v not in cats[c] for c in fit_cols for v in case["test"][c])
     labels |= {"single" if o["single"] else "indicators", "skip_errors" if o["skip_errors"] else "strict",
-               "columns=" + ("auto" if o["columns"] == "auto" else "explicit"), "dtype=" + case["dtype"],
+               "columns=" + facts["columns"], "dtype=" + case["dtype"],
                "has-missing" if has_missing else "no-missing", "has-unseen" if has_unseen else "no-unseen",
                "remove" if o["remove"] else "no-remove", "ncat=%d" % len(fit_cols)}
     return Outcome(labels, has_missing or has_unseen or len(fit_cols) >= 2)
@@ -179,12 +181,14 @@ def _cases(draw, tier="quick"):
     num_cols = ["num%d" % i for i in range(nnum)]
     cols = draw(st.permutations(cat_cols + num_cols))
     dtype = "object"
-    columns = draw(st.sampled_from(["auto", "explicit", "subset"]))
+    columns = draw(st.sampled_from(["auto", "explicit", "subset", "string"]))
     if columns == "auto":
         opt_cols = "auto"
     elif columns == "explicit":
         opt_cols = list(cat_cols)
         dtype = draw(st.sampled_from(["object", "str"]))
+    elif columns == "string":
+        opt_cols = cat_cols[0]
     else:
         k = draw(st.integers(1, ncat))
         opt_cols = cat_cols[:k]
